@@ -10,7 +10,7 @@ from . import C02
 
 META = {
     'design_ref': 'DESIGN.md §5 C12',
-    'technique': 'guard rule for optional table entries on the CFG and in comprehensions; writer template of _multivalued.get_as_string extracted by abstract interpretation and pushed, as the value of the dump template, through the Deb822 reader line classes; token-boundary inclusion for split(); width kinds from path enumeration; frame rule (no hidden state in the width computation); heap interpretation of the size_field_behavior property on several objects (default, read-back, per-object isolation); container-kind agreement of writer and reader on regular languages (record list vs. single record, the empty list included); type-guard rule for the text operations of the constructor; may-raise rule for max() of a possibly empty sequence; sibling cross-check of the single-record guard; _fixed_field_lengths interpreted per class and behaviour on paragraphs with an absent, list, single-record, empty and two-field content; predicates on the first line of a text; clause two non-blank lines are a list of records; the reader (_multivalued.__init__) interpreted on six layouts of a field text (tabs, runs of blanks, trailing blank, aligned columns) against the records of whitespace-free tokens',
+    'technique': 'guard rule for optional table entries on the CFG and in comprehensions; writer template of _multivalued.get_as_string extracted by abstract interpretation and pushed, as the value of the dump template, through the Deb822 reader line classes; token-boundary inclusion for split(); width kinds from path enumeration; frame rule (no hidden state in the width computation); heap interpretation of the size_field_behavior property on several objects (default, read-back, per-object isolation); container-kind agreement of writer and reader on regular languages (record list vs. single record, the empty list included); type-guard rule for the text operations of the constructor; may-raise rule for max() of a possibly empty sequence; sibling cross-check of the single-record guard; _fixed_field_lengths interpreted per class and behaviour on paragraphs with an absent, list, single-record, empty and two-field content; predicates on the first line of a text; clause two non-blank lines are a list of records; the reader (_multivalued.__init__) interpreted on six layouts of a field text (tabs, runs of blanks, trailing blank, aligned columns) against the records of whitespace-free tokens; writer interpreted with and without a registered width on a single record, a list of one and a list of two, and read back by the interpreted reader; width oracle per behaviour for a field that holds one record',
     'level_text': 'Static decision: absent optional structured fields can never raise from the size-column computation and never stop '
                   'the computation for the remaining fields; every line written for a record list is a continuation line the reader '
                   'keeps verbatim, ends the field correctly and splits on whitespace into exactly the written tokens; reader and writer '
